@@ -59,6 +59,7 @@ fn run_job(job: &Value) -> Value {
         fiemap: gs(k, "fiemap").map(|x| x.to_string()),
         fiemap_split: gu(k, "fiemap_split").unwrap_or(0),
         fiemap_round_eof: gb(k, "fiemap_round_eof"),
+        fiemap_past_eof: gu(k, "fiemap_past_eof").unwrap_or(0),
         getdents: gs(k, "getdents").unwrap_or("perm").to_string(),
         wake_any: gb(k, "wake_any"),
     };
